@@ -38,23 +38,23 @@ theorem unbalanced_rejected (p : Params) (outs : List OutDef) (b : Blk) (iv : Na
 
 
 /-- **State equation** (value component): along any replay of blocks whose bodies pass validation
-— bodies duplicate-free (`Blk.Sane`, what `verify_sorted_and_unique` enforces) — the total value of
+(which includes: no commitment twice among the inputs or the outputs) the total value of
 the unspent outputs grows by exactly one subsidy per block: the subsidy is the only new value,
 fees only move value. `utxoValue` = Σ of the openings of the unspent outputs. Holds for the path
 of every block (every fork), since the state of a block *is* the replay of its own path. -/
 theorem state_equation_step (p : Params) (outs : List OutDef) (bs : List Blk) (s s' : UState)
     (hnd : (s.utxo.map (·.1)).Nodup) (hr : replay p s bs = .ok s')
-    (hb : ∀ b ∈ bs, b.Sane ∧ validateBody p outs b (sumVals outs b.ins) = none) :
+    (hb : ∀ b ∈ bs, validateBody p outs b (sumVals outs b.ins) = none) :
     utxoValue outs s' = utxoValue outs s + bs.length * p.reward :=
   (replay_value p outs bs s s' hnd hr (fun b h =>
-    ⟨(hb b h).1, (validateBody_none p outs b _ (hb b h).2).2.2.2.2⟩)).1
+    ⟨sane_of_validateBody p outs b _ (hb b h), (validateBody_none p outs b _ (hb b h)).2.2.2.2⟩)).1
 
 /-- … from a genesis whose outputs are distinct and worth one subsidy: after `n` blocks on top of
 the genesis the unspent outputs are worth `(n + 1) × reward` — the height-determined supply. -/
 theorem state_equation (p : Params) (outs : List OutDef) (g : Blk) (bs : List Blk) (s : UState)
     (hgo : (g.outs.map (·.1)).Nodup) (hgv : sumVals outs (g.outs.map (·.1)) = p.reward)
     (hr : replay p (genesisState g) bs = .ok s)
-    (hb : ∀ b ∈ bs, b.Sane ∧ validateBody p outs b (sumVals outs b.ins) = none) :
+    (hb : ∀ b ∈ bs, validateBody p outs b (sumVals outs b.ins) = none) :
     utxoValue outs s = (bs.length + 1) * p.reward := by
   have hnd : ((genesisState g).utxo.map (·.1)).Nodup := by
     simp only [genesisState, List.map_map]
@@ -70,13 +70,13 @@ theorem state_equation (p : Params) (outs : List OutDef) (g : Blk) (bs : List Bl
 equation rests on: a commitment is never unspent twice). -/
 theorem unspent_distinct (p : Params) (outs : List OutDef) (g : Blk) (bs : List Blk) (s : UState)
     (hgo : (g.outs.map (·.1)).Nodup) (hr : replay p (genesisState g) bs = .ok s)
-    (hb : ∀ b ∈ bs, b.Sane ∧ validateBody p outs b (sumVals outs b.ins) = none) :
+    (hb : ∀ b ∈ bs, validateBody p outs b (sumVals outs b.ins) = none) :
     (s.utxo.map (·.1)).Nodup := by
   have hnd : ((genesisState g).utxo.map (·.1)).Nodup := by
     simp only [genesisState, List.map_map]
     exact hgo
   exact (replay_value p outs bs _ s hnd hr (fun b h =>
-    ⟨(hb b h).1, (validateBody_none p outs b _ (hb b h).2).2.2.2.2⟩)).2
+    ⟨sane_of_validateBody p outs b _ (hb b h), (validateBody_none p outs b _ (hb b h)).2.2.2.2⟩)).2
 
 /-! ## non-vacuity: the hypotheses hold on the concrete tree of `Lemmas/ChainExamples.lean`
 (0 ── 1 ── 3 ── 4, sibling 2 of 1, invalid child 9 of 1; 3 spends the genesis output 100 and
@@ -92,7 +92,7 @@ example : utxoValue Ex.outs
     (by
       intro b hb
       simp only [List.mem_cons, List.not_mem_nil, or_false] at hb
-      rcases hb with rfl | rfl | rfl <;> exact ⟨⟨by decide, by decide⟩, by decide⟩)
+      rcases hb with rfl | rfl | rfl <;> decide)
 
 end Examples
 end GV.Props.C01
